@@ -137,13 +137,14 @@ def gen_sup_case(rng, idx, tier):
     return c
 
 
-def sup_stream(rep, rng, N, tier):
+def sup_stream(rep, rng, N, tier, big=()):
     import opfython.math.general as g
     terms, expect, descs = [], [], []
     stats = dict(fits=0, compared=0, skipped_error={}, skipped_nan=0, premat=0, best_k={}, distinct_accuracy_lists=0, all_zero_acc=0)
     orig_acc = g.opf_accuracy
-    for idx in range(N):
-        c = gen_sup_case(rng, idx, tier)
+    stats["large_validation_sets"] = len(big)
+    for idx in range(N + len(big)):
+        c = gen_sup_case(rng, idx, tier) if idx < N else big[idx - N]
         accs = []
 
         def wrapped(labels, preds, _o=orig_acc):
@@ -328,7 +329,8 @@ def whole_fit_stream(rep, tier, seed):
     rng = random.Random(seed + 1600)
     unit_streams(rep, rng, tier)
     N = 64 if tier == "quick" else 3000
-    t, e, d, s = sup_stream(rep, rng, N, tier)
+    import large_c16      # + designed cases with 150..350 validation rows (the model's table look-ups are quadratic in the rows), accuracies a few 1e-5 apart or tied (own generator: the bulk cases stay as they were)
+    t, e, d, s = sup_stream(rep, rng, N, tier, large_c16.whole_fit_cases(random.Random(seed * 7919 + 160016), tier))
     bad = corr(rep, "correspondence (whole fit) Model/KnnLearn.knn_sup_fit at PrimFloat vs KNNSupervisedOPF.fit: accuracy of every candidate k "
                "(bit patterns), best_k, constant/min/max density, density bound, radius, density, cost, pred, root, labels, idx_nodes",
                "C16fitK", t, e, d)
